@@ -252,8 +252,8 @@ pub static LIB: &[LibEntry] = &[
     e(Static("Object"), "isFrozen", &[Arg::Rec], Ret::Bool),
     e(Static("Object"), "getOwnPropertyNames", &[Arg::Rec], Ret::ArrStr),
     e(Static("Object"), "is", &[Prim, Prim], Ret::Bool),
-    e(Static("Object"), "keys", &[Arg::ArrNum], Ret::ArrStr),
-    e(Static("Object"), "entries", &[Arg::ArrNum], Ret::ArrAny),
+    g(Static("Object"), "keys", &[Arg::ArrNum], Ret::ArrStr, "object-keys-on-array"),
+    g(Static("Object"), "entries", &[Arg::ArrNum], Ret::ArrAny, "object-keys-on-array"),
     e(RRec, "hasOwnProperty", &[Key], Ret::Bool),
     // ---- JSON ----
     e(Static("JSON"), "stringify", &[Arg::Any], Ret::Any),
